@@ -126,19 +126,31 @@ impl EventGen for Container {
     ) -> Result<(OutputList, Option<BoundingBox>)> {
         if let Some(inner_events) = self.0.inner_events(context) {
             // If there's only text/cdata events, apply to current element and render
-            let mut inner_text = None;
+            // (character data and CDATA sections side by side are one text; only the white
+            // space around a CDATA section - its indentation - is not part of it)
+            let mut inner_text: Option<String> = None;
+            let mut pieces: Vec<(bool, String)> = Vec::new();
+            let mut only_text = true;
             for e in inner_events.iter() {
                 if let Some(t) = e.text_string() {
-                    if inner_text.is_none() {
-                        inner_text = Some(t);
-                    }
+                    pieces.push((false, t));
                 } else if let Some(c) = e.cdata_string() {
-                    inner_text = Some(c);
+                    pieces.push((true, c));
                 } else {
                     // not text or cdata - abandon the effort and mark as such.
-                    inner_text = None;
+                    only_text = false;
                     break;
                 }
+            }
+            if only_text && !pieces.is_empty() {
+                let has_cdata = pieces.iter().any(|(is_cdata, _)| *is_cdata);
+                inner_text = Some(
+                    pieces
+                        .iter()
+                        .filter(|(is_cdata, t)| *is_cdata || !has_cdata || !t.trim().is_empty())
+                        .map(|(_, t)| t.as_str())
+                        .collect(),
+                );
             }
             if let (true, Some(text)) = (self.0.is_graphics_element(), &inner_text) {
                 let mut el = self.0.clone();
